@@ -55,6 +55,10 @@ def build_harness(tags="verif"):
         open(gm, "w").write(new)
     t0 = time.time()
     cmd = [env["VERIF_GO"], "build", "-tags", tags, "-o", os.path.join(BUILD, "vharness"), "./cmd/vharness"]
+    if os.environ.get("VERIF_COVER"):
+        # development aid (tools/covmap.py): which code of /repo do the drivers actually reach?  The binary
+        # writes coverage counters to $GOCOVERDIR at exit; never set by a registered command.
+        cmd[2:2] = ["-cover", "-coverpkg=github.com/conduitio/conduit/pkg/...,verifharness/cmd/vharness"]
     p = subprocess.run(cmd, cwd=HARNESS, env=env, capture_output=True, text=True)
     if p.returncode != 0:
         raise Infra("harness build failed:\n" + p.stdout + p.stderr)
